@@ -17,6 +17,7 @@ import (
 	"encoding/hex"
 	"fmt"
 	"image"
+	"io"
 	"os"
 	"path/filepath"
 	"runtime/debug"
@@ -728,6 +729,19 @@ func parserClassLine(b []byte) (line string) {
 	return fmt.Sprintf("ok %d", f.FrameCount)
 }
 
+func parserClassLineHidden(b []byte) (line string) {
+	defer func() {
+		if r := recover(); r != nil {
+			line = "panic"
+		}
+	}()
+	f, err := webp.GetFeatures(struct{ io.Reader }{bytes.NewReader(b)})
+	if err != nil {
+		return "err"
+	}
+	return fmt.Sprintf("ok %d", f.FrameCount)
+}
+
 func hexOrDash(b []byte) string {
 	if len(b) == 0 {
 		return "-"
@@ -805,7 +819,13 @@ func evalInput(c *Ctx, kind string, b []byte) {
 	c.Count("demux-" + line[:minInt(len(line), 5)])
 
 	// container.NewParser (through webp.GetFeatures): outcome class and frame count vs ParserModel.parse_ex
-	c.Case("pclass "+hx, parserClassLine(b))
+	pl := parserClassLine(b)
+	c.Case("pclass "+hx, pl)
+	// the same bytes through a reader that hides Len(): readAll then returns io.ReadAll's buffer,
+	// which has spare capacity behind the data (observation only; C17 owns carrier independence)
+	if pl2 := parserClassLineHidden(b); pl2 != pl {
+		c.Count("observation: GetFeatures outcome differs between bytes.Reader and a reader without Len")
+	}
 
 	// mux.ReadChunkHeader / mux.ReadChunk called directly on the payload after the RIFF header
 	// (and on the raw input), under recover; compared with the model's read_chunk
